@@ -1,0 +1,95 @@
+//go:build verif
+
+// Contracts for the fvc verification-condition generator in /verif (comment-only file; it adds no
+// code to the package and is only seen with -tags verif).
+//
+// C02, second part: the meaning of route constraints, the lookup of captured values by name.
+
+package fiber
+
+//@ props C02
+
+// ---------------------------------------------------------------------------------------------
+// Route constraints (docs/guide/routing.md "Constraints"): int, bool, guid, float, minLen(n), maxLen(n), len(n),
+// betweenLen(a,b), min(n), max(n), range(a,b), alpha, datetime(layout), regex(expr); a custom constraint with the
+// same name overrides the built-in one; a constraint that lacks its data never holds.
+// The text parsers of the standard library are named by uninterpreted functions (/verif/contracts/deps/mw_C02.spec).
+// ---------------------------------------------------------------------------------------------
+
+// A custom constraint is user code: its name and its verdict are assumed to be deterministic and free of effects.
+//@ fn ccName(cc ref, ep int) string
+//@ fn ccExec(cc ref, param string, data slice, ep int) bool
+//@ func CustomConstraint.Name(recv) assumed pure
+//@   ensures result == ccName(recv, epoch)
+//@ func CustomConstraint.Execute(recv, param, args) assumed pure
+//@   ensures result == ccExec(recv, param, args, epoch)
+
+// the name of constraint c is that of its i-th custom constraint / of none of the first n
+//@ macro customAt(c, i) = (ccName(c.customConstraints[i], epoch) == c.Name)
+//@ macro noCustom(c, n) = forall(kc, 0, n, !customAt(c, kc))
+//@ macro builtin(c) = noCustom(c, len(c.customConstraints))
+//@ macro asciiLetter(b) = (('a' <= b && b <= 'z') || ('A' <= b && b <= 'Z'))
+//@ macro allASCII(s) = forall(ka, 0, len(s), s[ka] < 128)
+
+// the name in the pattern selects the kind
+//@ func getParamConstraintType
+//@   props C02 C03
+//@   pure
+//@   ensures int-kind: result == intConstraint <==> constraintPart == "int"
+//@   ensures bool-kind: result == boolConstraint <==> constraintPart == "bool"
+//@   ensures float-kind: result == floatConstraint <==> constraintPart == "float"
+//@   ensures alpha-kind: result == alphaConstraint <==> constraintPart == "alpha"
+//@   ensures guid-kind: result == guidConstraint <==> constraintPart == "guid"
+//@   ensures minLen-kind: result == minLenConstraint <==> (constraintPart == "minLen" || constraintPart == "minlen")
+//@   ensures maxLen-kind: result == maxLenConstraint <==> (constraintPart == "maxLen" || constraintPart == "maxlen")
+//@   ensures len-kind: result == lenConstraint <==> constraintPart == "len"
+//@   ensures betweenLen-kind: result == betweenLenConstraint <==> (constraintPart == "betweenLen" || constraintPart == "betweenlen")
+//@   ensures min-kind: result == minConstraint <==> constraintPart == "min"
+//@   ensures max-kind: result == maxConstraint <==> constraintPart == "max"
+//@   ensures range-kind: result == rangeConstraint <==> constraintPart == "range"
+//@   ensures datetime-kind: result == datetimeConstraint <==> constraintPart == "datetime"
+//@   ensures regex-kind: result == regexConstraint <==> constraintPart == "regex"
+//@   ensures a-known-kind: noConstraint <= result && result <= regexConstraint
+
+// A Constraint object as the pattern parser builds it from one ';'-separated part of "<...>": its kind is the one its
+// name selects (getParamConstraintType above), it carries the custom constraints of the registration, and a regex
+// constraint that was given an expression has it compiled. (clauses kind-fits-name of (*routeParser).analyseParameterPart,
+// zz_contracts_c03_verif.go)
+//@ macro kindFitsName(c) = ((c.ID == intConstraint <==> c.Name == "int") && (c.ID == boolConstraint <==> c.Name == "bool") && (c.ID == floatConstraint <==> c.Name == "float") &&
+//@ ..   (c.ID == alphaConstraint <==> c.Name == "alpha") && (c.ID == guidConstraint <==> c.Name == "guid") && (c.ID == minLenConstraint <==> (c.Name == "minLen" || c.Name == "minlen")) &&
+//@ ..   (c.ID == maxLenConstraint <==> (c.Name == "maxLen" || c.Name == "maxlen")) && (c.ID == lenConstraint <==> c.Name == "len") &&
+//@ ..   (c.ID == betweenLenConstraint <==> (c.Name == "betweenLen" || c.Name == "betweenlen")) && (c.ID == minConstraint <==> c.Name == "min") && (c.ID == maxConstraint <==> c.Name == "max") &&
+//@ ..   (c.ID == rangeConstraint <==> c.Name == "range") && (c.ID == datetimeConstraint <==> c.Name == "datetime") && (c.ID == regexConstraint <==> c.Name == "regex") &&
+//@ ..   noConstraint <= c.ID && c.ID <= regexConstraint)
+//@ macro parsedConstraint(c, ccs) = (c != nil && kindFitsName(c) && c.customConstraints == ccs && (c.ID == regexConstraint && len(c.Data) > 0 ==> c.RegexCompiler != nil))
+
+// checkOK (C02 block of zz_contracts_verif.go) names the verdict; the clauses below say what it is.
+//@ func (*Constraint).CheckConstraint
+//@   pure
+//@   defines result == checkOK(c, param, epoch)
+//@   loop 1
+//@     invariant no-custom-so-far: noCustom(c, rangeindex + 1)
+//@   loop 2
+//@     invariant one-datum-so-far: forall(k, 0, rangeindex + 1, c.ID == needOneData[k] ==> len(c.Data) > 0)
+//@   loop 3
+//@     invariant two-data-so-far: forall(k, 0, rangeindex + 1, c.ID == needTwoData[k] ==> len(c.Data) >= 2)
+//@   loop 4
+//@     invariant letters-so-far: allASCII(param) ==> forall(k, 0, rangepos(), asciiLetter(param[k]))
+//@   ensures custom-overrides: forall(i, 0, len(c.customConstraints), customAt(c, i) && noCustom(c, i) ==> result == ccExec(c.customConstraints[i], param, c.Data, epoch))
+//@   ensures none: builtin(c) && c.ID == noConstraint ==> result
+//@   ensures int: builtin(c) && c.ID == intConstraint ==> (result <==> atoiOK(param))
+//@   ensures bool: builtin(c) && c.ID == boolConstraint ==> (result <==> parseBoolOK(param))
+//@   ensures float: builtin(c) && c.ID == floatConstraint ==> (result <==> parseFloatOK(param, 32))
+//@   ensures guid: builtin(c) && c.ID == guidConstraint ==> (result <==> uuidOK(param))
+//@   ensures alpha-ascii: builtin(c) && c.ID == alphaConstraint && allASCII(param) ==> (result <==> forall(k, 0, len(param), asciiLetter(param[k])))
+// docs: "alpha - String must consist of one or more alphabetical characters, a-z and case-insensitive"
+//@   ensures alpha-as-documented: builtin(c) && c.ID == alphaConstraint ==> (result <==> forall(k, 0, len(param), asciiLetter(param[k])))
+//@   ensures minLen: builtin(c) && c.ID == minLenConstraint ==> (result <==> len(c.Data) >= 1 && len(param) >= atoiVal(c.Data[0]))
+//@   ensures maxLen: builtin(c) && c.ID == maxLenConstraint ==> (result <==> len(c.Data) >= 1 && len(param) <= atoiVal(c.Data[0]))
+//@   ensures len: builtin(c) && c.ID == lenConstraint ==> (result <==> len(c.Data) >= 1 && len(param) == atoiVal(c.Data[0]))
+//@   ensures betweenLen: builtin(c) && c.ID == betweenLenConstraint ==> (result <==> len(c.Data) >= 2 && atoiVal(c.Data[0]) <= len(param) && len(param) <= atoiVal(c.Data[1]))
+//@   ensures min: builtin(c) && c.ID == minConstraint ==> (result <==> len(c.Data) >= 1 && atoiOK(param) && atoiVal(param) >= atoiVal(c.Data[0]))
+//@   ensures max: builtin(c) && c.ID == maxConstraint ==> (result <==> len(c.Data) >= 1 && atoiOK(param) && atoiVal(param) <= atoiVal(c.Data[0]))
+//@   ensures range: builtin(c) && c.ID == rangeConstraint ==> (result <==> len(c.Data) >= 2 && atoiOK(param) && atoiVal(c.Data[0]) <= atoiVal(param) && atoiVal(param) <= atoiVal(c.Data[1]))
+//@   ensures datetime: builtin(c) && c.ID == datetimeConstraint ==> (result <==> len(c.Data) >= 1 && timeParseOK(c.Data[0], param))
+//@   ensures regex: builtin(c) && c.ID == regexConstraint ==> (result <==> len(c.Data) >= 1 && c.RegexCompiler != nil && regexMatches(c.RegexCompiler, param))
